@@ -178,6 +178,10 @@ func validateUnjailMessage(ctx sdk.Ctx, msg types.MsgUnjail, k keeper.Keeper) (a
 		return nil, types.ErrSelfDelegationTooLowToUnjail(k.Codespace())
 	}
 	// cannot be unjailed if not jailed
+	// cannot be unjailed if not staked (an unstaking validator stays out of the staking set)
+	if !validator.GetStatus().Equal(sdk.Staked) {
+		return nil, types.ErrValidatorStatus(k.Codespace())
+	}
 	if !validator.IsJailed() {
 		return nil, types.ErrValidatorNotJailed(k.Codespace())
 	}
